@@ -352,6 +352,8 @@ pub struct WorkerArgs {
     pub out: PathBuf,
     pub digest: bool,
     pub wall_cap_s: u64,
+    /// how many more times this stride may hand over to a fresh process after a panic
+    pub restarts_left: u64,
 }
 
 pub fn worker<C: Check>(a: WorkerArgs) {
@@ -390,8 +392,10 @@ pub fn worker<C: Check>(a: WorkerArgs) {
             scheds.insert(s);
         }
         let mut verdict = 0u64;
+        let mut panicked = false;
         if let Err(v) = r {
             verdict = str_id(&v.class);
+            panicked = v.class.contains("panic");
             let fk = C::finding_key(&case, &v);
             let _ = writeln!(
                 out,
@@ -404,6 +408,11 @@ pub fn worker<C: Check>(a: WorkerArgs) {
         }
         let _ = out.write_all(format!("E {}\n", idx).as_bytes());
         idx += a.stride;
+        if verdict != 0 && panicked && a.restarts_left > 0 && idx < a.total {
+            // a panic may have left process-global state behind (poisoned locks): continue in a fresh process
+            let _ = writeln!(out, "{}", json!({"t":"restart","next":idx}));
+            break;
+        }
     }
     let tostr = |m: &BTreeMap<&'static str, u64>| -> BTreeMap<String, u64> {
         m.iter().map(|(k, v)| (k.to_string(), *v)).collect()
@@ -435,6 +444,9 @@ struct FoundViolation {
     class: String,
     detail: String,
     key: Option<String>,
+    /// an earlier run of the same worker process ended in a panic: process-global state (poisoned
+    /// locks, half-updated statics) may be contaminated, so this one counts only if it replays
+    after_panic: bool,
 }
 
 pub struct DriveOpts {
@@ -460,6 +472,8 @@ struct WorkerResult {
     last_started: Option<u64>,
     last_ended: Option<u64>,
     capped: bool,
+    /// the worker stopped after a panic to get a fresh process; continue at this index
+    restart_next: Option<u64>,
 }
 
 fn parse_worker_out(p: &Path) -> WorkerResult {
@@ -470,7 +484,9 @@ fn parse_worker_out(p: &Path) -> WorkerResult {
         last_started: None,
         last_ended: None,
         capped: false,
+        restart_next: None,
     };
+    let mut seen_panic = false;
     for l in s.lines() {
         if let Some(x) = l.strip_prefix("S ") {
             r.last_started = x.parse().ok();
@@ -479,12 +495,20 @@ fn parse_worker_out(p: &Path) -> WorkerResult {
         } else if l.starts_with('{') {
             if let Ok(v) = serde_json::from_str::<Value>(l) {
                 match v["t"].as_str() {
-                    Some("viol") => r.viols.push(FoundViolation {
-                        idx: v["idx"].as_u64().unwrap_or(0),
-                        class: v["class"].as_str().unwrap_or("?").to_string(),
-                        detail: v["detail"].as_str().unwrap_or("").to_string(),
-                        key: v["key"].as_str().map(|s| s.to_string()),
-                    }),
+                    Some("viol") => {
+                        let class = v["class"].as_str().unwrap_or("?").to_string();
+                        r.viols.push(FoundViolation {
+                            idx: v["idx"].as_u64().unwrap_or(0),
+                            class: class.clone(),
+                            detail: v["detail"].as_str().unwrap_or("").to_string(),
+                            key: v["key"].as_str().map(|s| s.to_string()),
+                            after_panic: seen_panic,
+                        });
+                        if class.contains("panic") {
+                            seen_panic = true;
+                        }
+                    }
+                    Some("restart") => r.restart_next = v["next"].as_u64(),
                     Some("done") => r.done = serde_json::from_value(v["d"].clone()).ok(),
                     Some("capped") => r.capped = true,
                     _ => {}
@@ -530,6 +554,8 @@ pub fn drive<C: Check>(o: DriveOpts) -> i32 {
             .arg(total.to_string())
             .arg("--wall-cap")
             .arg(wall_cap.to_string())
+            .arg("--restarts-left")
+            .arg(40u64.saturating_sub(gen).to_string())
             .arg("--out")
             .arg(&out);
         if o.digest_out.is_some() {
@@ -564,6 +590,11 @@ pub fn drive<C: Check>(o: DriveOpts) -> i32 {
             agg.nontrivial_sigs.extend(d.nontrivial_sigs);
             agg.scheds.extend(d.scheds);
             digest_all.extend(d.digest);
+            if let Some(n) = wr.restart_next {
+                if n < total {
+                    slots.push(spawn(k, n, gen + 1));
+                }
+            }
         } else {
             // abnormal end: attribute to the run that was started and not ended
             let st = format!("{:?}", status);
@@ -577,6 +608,7 @@ pub fn drive<C: Check>(o: DriveOpts) -> i32 {
                         class: v.class,
                         detail: v.detail,
                         key,
+                        after_panic: false,
                     });
                     agg.runs += 1; // the aborted one; completed ones of this worker are lost in stats
                     if i + jobs < total && gen < 200 {
@@ -684,6 +716,12 @@ pub fn drive<C: Check>(o: DriveOpts) -> i32 {
                 o.seed
             );
             exit = 1;
+        } else if v.after_panic {
+            println!(
+                "note: {} at idx {} followed a panic in the same worker process and does not replay in a fresh one (contaminated process state, not counted)",
+                v.class, v.idx
+            );
+            let _ = std::fs::remove_file(&path);
         } else {
             harness_errors.push(format!(
                 "violation {} at idx {} did not replay from {} (output: {})",
